@@ -102,7 +102,9 @@ def shards(tier, seed):
     # two requests on two threads of one application: genuine / forged / other cookies, every schedule with <= 1 (thorough 2) preemptions
     for ci in range(len(THREAD_CASES)):
         for start in (0, 1):
-            out.insert(0, ('threads', ci, start, 1 if tier == 'quick' or ci else 2))
+            out.insert(0, ('threads', ci, start, 1))
+            if tier == 'thorough':
+                out.insert(0, ('threads', ci, start, 2))
     # plain values in which a backslash is followed by digits (they look like the octal escapes of the cookie quoting)
     for seqn in ('\\101', '\\073', '\\377', '\\400', '\\08', '\\1', '\\0012'):
         out.append(('plainx', seqn, 2))
@@ -278,7 +280,7 @@ def read_reused(om, proxy, first_pair, first_secret, pair, name, secret):
 THREAD_CASES = [('genuine', 'forged'), ('genuine', 'other-value'), ('genuine', 'none'), ('forged', 'forged')]
 
 
-def run_threads(om, combo, prefix):
+def run_threads(om, combo, prefix, gran='line'):
     import os
     from vf.sched import Scheduler
     ch = sut.sub('common_helpers')
@@ -297,7 +299,7 @@ def run_threads(om, combo, prefix):
         hdr = {'Cookie': pairs[kind]} if pairs[kind] else {}
         return lambda: wsgi.call(app, wsgi.environ('GET', '/who', headers=hdr))
     sp = os.path.join(os.path.realpath(sut.SRC), 'ombott') + os.sep
-    x = Scheduler([prog(combo[0]), prog(combo[1])], prefix, lambda fn: fn.startswith(sp) or fn == HERE).run()
+    x = Scheduler([prog(combo[0]), prog(combo[1])], prefix, lambda fn: fn.startswith(sp) or fn == HERE, granularity=gran).run()
     return x, [repr(want[k]).encode() for k in combo]
 
 
@@ -323,9 +325,11 @@ def work_threads(spec):
     c = res['counters']
     combo = THREAD_CASES[ci]
 
+    gran = 'call' if bound >= 2 else 'line'        # two preemptions: scheduling points at function entries
+
     def run(p):
         om = sut.load(fresh=True)
-        return run_threads(om, combo, p)
+        return run_threads(om, combo, p, gran)
     last = {}
 
     def run_x(p):
@@ -341,7 +345,7 @@ def work_threads(spec):
         v = judge_threads(combo, x, last['want'])
         res['outcomes'].add(f'threads {combo} -> {"ok" if v is None else v[0]}')
         if v is not None:
-            core.add_violation(res, {'kind': 'threads', 'combo': ci, 'choices': list(x.choices)},
+            core.add_violation(res, {'kind': 'threads', 'combo': ci, 'choices': list(x.choices), 'gran': gran},
                                f'requests carrying a {combo[0]} and a {combo[1]} signed cookie on two threads of one application, {x.switches} switches: {v[1]}', sig=v[0])
     res['execs'] = res['states']
     core.add_sample(res, {'threads': list(combo), 'first_thread': start, 'preemption_bound': bound, 'schedules': c['schedules']})
@@ -660,7 +664,7 @@ def work(spec):
 def replay(case):
     if case.get('kind') == 'threads':
         combo = THREAD_CASES[case['combo']]
-        x, want = run_threads(sut.load(fresh=True), combo, case['choices'])
+        x, want = run_threads(sut.load(fresh=True), combo, case['choices'], case.get('gran', 'line'))
         v = judge_threads(combo, x, want)
         sut.load(fresh=True)
         return None if v is None else (f'requests carrying a {combo[0]} and a {combo[1]} signed cookie on two threads of one application under the schedule '
